@@ -404,7 +404,7 @@ Fixpoint go_dirs_text (ds : list pdir) (s : bstr) : bstr :=
 Definition go_print_text (mode : N) (ds : list pdir) (s : bstr) : bstr :=
   match ds with [] => if mode =? 2 then s else html_escape s | _ => go_dirs_text ds s end.
 
-(* ---- statements: raw text, print, let (value form), if / elseif / else, switch ---- *)
+(* ---- statements: raw text, print, let (both forms), if / elseif / else, switch ---- *)
 (* blocks, else-chains and case lists are types of their own (mutual with statements);
    by construction {else} is the last arm of an if and {default} the last case of a switch
    (the parser's shape after REPAIR C04-8), and a case has at least one value *)
@@ -412,6 +412,7 @@ Inductive cstmt :=
 | SRaw (t : bstr)
 | SPrint (e : cexpr) (ds : list pdir)
 | SLet (name : bstr) (e : cexpr)                       (* {let $name: e /} *)
+| SLetC (name : bstr) (body : cblk)                    (* {let $name}...{/let} *)
 | SIf (c : cexpr) (th : cblk) (rest : celse)
 | SSwitch (v : cexpr) (cs : ccases)
 with cblk := BNil | BCons (s : cstmt) (r : cblk)
@@ -423,6 +424,7 @@ Fixpoint snode (s : cstmt) : node :=
   | SRaw t => NRawText 0 t
   | SPrint e ds => NPrint 0 (cnode e) (map pdir_node ds)
   | SLet name e => NLetValue 0 name (cnode e)
+  | SLetC name body => NLetContent 0 name (NList 0 (bnodes body))
   | SIf c th rest => NIf 0 (NIfCond 0 (Some (cnode c)) (NList 0 (bnodes th)) :: enodes rest)
   | SSwitch v cs => NSwitch 0 (cnode v) (knodes cs)
   end
@@ -448,6 +450,7 @@ Fixpoint sdepth (s : cstmt) : nat :=
   | SRaw _ => 1%nat
   | SPrint e _ => S (S (cdepth e))
   | SLet _ e => S (S (cdepth e))
+  | SLetC _ body => S (S (bdepth body))
   | SIf c th rest => S (S (Nat.max (cdepth c) (Nat.max (bdepth th) (edepth rest))))
   | SSwitch v cs => S (S (Nat.max (cdepth v) (kdepth cs)))
   end
@@ -470,6 +473,7 @@ Inductive jstmt :=
 | JSAppendLit (buf t : bstr)                                   (* buf += 'text'; *)
 | JSAppend (buf : bstr) (e : jexpr)                            (* buf += e; *)
 | JSVar (g : bstr) (e : jexpr)                                 (* var g = e; *)
+| JSVarBlock (g : bstr) (body : jblk)                          (* var g = ''; followed by statements that append to g (no braces) *)
 | JSIf (c : jexpr) (th : jblk) (rest : jelse)                  (* if (c) {..} [else if (c) {..}]* [else {..}] *)
 | JSSwitch (v : jexpr) (cs : jcases)                           (* switch (v) { [case x:]+ .. break; ... [default: .. break;] } *)
 with jblk := JBNil | JBCons (s : jstmt) (r : jblk)
@@ -491,6 +495,11 @@ Fixpoint sgen (mode : N) (buf : bstr) (sc : list (list (bstr * bstr))) (n : N) (
   | SRaw t => (JSAppendLit buf t, (sc, n))
   | SPrint e ds => (JSAppend buf (cgen_print_expr mode ds (cgen sc e)), (sc, n))
   | SLet name e => let g := jsc_name name (n + 1) in (JSVar g (cgen sc e), (jsc_bind_pure sc name g, n + 1))
+  | SLetC name body =>
+      (* the new name is the buffer of the body and becomes visible after it *)
+      let g := jsc_name name (n + 1) in
+      let '(jb, n1) := bgen mode g ([] :: sc) (n + 1) body in
+      (JSVarBlock g jb, (jsc_bind_pure sc name g, n1))
   | SIf c th rest =>
       let '(jt, n1) := bgen mode buf ([] :: sc) n th in
       let '(jr, n2) := egen mode buf sc n1 rest in
@@ -560,6 +569,7 @@ Fixpoint js_exec (env : jenv) (s : jstmt) : outcome jenv :=
   | JSAppendLit buf t => js_append_text env buf t
   | JSAppend buf e => r <- js_append env buf e ;; Ok (snd r)
   | JSVar g e => v <- js_eval env e ;; Ok {| je_vars := aset (je_vars env) g v; je_data := je_data env |}
+  | JSVarBlock g body => jb_exec {| je_vars := aset (je_vars env) g (JStr []); je_data := je_data env |} body
   | JSIf c th rest => v <- js_eval env c ;; if js_truthy v then jb_exec env th else jl_exec env rest
   | JSSwitch v cs => sv <- js_eval env v ;; jk_exec env sv cs
   end
@@ -623,6 +633,9 @@ Section Sout.
     | SLet name e =>
         if bstr_eqb name n_ij then None
         else match ceval ij env e with Some v => Some ([], env_set env name v) | None => None end
+    | SLetC name body =>
+        if bstr_eqb name n_ij then None
+        else match bout env body with Some t => Some ([], env_set env name (VStr t)) | None => None end
     | SIf c th rest =>
         match ceval ij env c with
         | Some v => match (if truthy v then bout env th else eout env rest) with Some t => Some (t, env) | None => None end
@@ -679,6 +692,7 @@ Fixpoint sprint (ind : nat) (s : jstmt) : list chunk :=
   | JSAppendLit buf t => [CText (indent_text ind); CName buf; CText t_pluseq; CStrLit 39 t; CText t_semi_nl]
   | JSAppend buf e => [CText (indent_text ind); CName buf; CText t_pluseq] ++ jprint e ++ [CText t_semi_nl]
   | JSVar g e => sp_ind ind ++ ([CText t_var; CName g; CText t_eq] ++ jprint e ++ [CText t_semi]) ++ [CText t_nl]
+  | JSVarBlock g body => sp_ind ind ++ [CText t_var; CName g; CText t_eq_empty] ++ [CText t_nl] ++ bprint ind body
   | JSIf c th rest =>
       sp_ind ind ++ [CText t_if_open] ++ jprint c ++ [CText t_op_mid1; CText t_brace_nl] ++ bprint (S ind) th
       ++ sp_ind ind ++ [CText t_rbrace] ++ lprint ind rest ++ [CText t_nl]
